@@ -8,6 +8,8 @@ import ApolloModel.Proofs.ParserExactT11
 import ApolloModel.Proofs.ParserExactT13
 import ApolloModel.Proofs.ParserExactS16
 import ApolloModel.Proofs.ParserExactC29
+import ApolloModel.Proofs.ParserExactS17
+import ApolloModel.Proofs.ParserExactT15
 import ApolloModel.Proofs.ParserDef19
 import ApolloModel.Proofs.ParserTermination8
 import ApolloModel.Proofs.ParserDoc5
@@ -1146,6 +1148,109 @@ theorem input_extension_with_body_accept_complete (n : Nat) (s s' : PState) (c :
     (h : (inputObjectTypeExtension n).run s = .ok () s') : Toks s' = q0 :: rest ∧ (Doomed s' ↔ Doomed s) := by
   obtain ⟨e, t, _⟩ := Parse.Exact.cmpT_inputObjectTypeExtensionP n s s' () c x q0 rest w hlex h hx ⟨hspell, hhead⟩ ht hq trivial trivial
   exact ⟨t, e.doom⟩
+
+/-! ### growth 14: `document_accept_complete` over the EXACT follow condition `DocFollowX` — a shorthand query may directly follow a
+    type-system definition or extension whose braces body is written; the sandwich now has `DocFollowX` on BOTH sides -/
+
+/-- `extend type Name ImplementsInterfaces? Directives[Const]? { FieldDefinition+ }`: with the fields written, `{` may follow (the
+    follow token is only asked not to be `&` or the Name `implements`) -/
+theorem object_extension_with_fields_accept_complete (n : Nat) (s s' : PState) (c : List Tok) (x : List Ast.Tok) (q0 : Tok)
+    (rest : List Tok) (w : TW s) (hlex : LexQ (Toks s)) (hx : Parse.Exact.LObjectExtP "type" (s.recLimit - s.recCur) x)
+    (hspell : (sig c).map astOfV = x.map some) (hhead : ∀ hd tl, c = hd :: tl → isIgnoredKind hd.kind = false)
+    (ht : Toks s = c ++ q0 :: rest) (hq : isIgnoredKind q0.kind = false) (hf : Parse.Exact.FObjP q0)
+    (h : (objectTypeExtension n).run s = .ok () s') : Toks s' = q0 :: rest ∧ (Doomed s' ↔ Doomed s) := by
+  obtain ⟨e, t, _⟩ := Parse.Exact.cmpT_objectTypeExtensionP n s s' () c x q0 rest w hlex h hx ⟨hspell, hhead⟩ ht hq hf trivial
+  exact ⟨t, e.doom⟩
+
+theorem interface_extension_with_fields_accept_complete (n : Nat) (s s' : PState) (c : List Tok) (x : List Ast.Tok) (q0 : Tok)
+    (rest : List Tok) (w : TW s) (hlex : LexQ (Toks s)) (hx : Parse.Exact.LObjectExtP "interface" (s.recLimit - s.recCur) x)
+    (hspell : (sig c).map astOfV = x.map some) (hhead : ∀ hd tl, c = hd :: tl → isIgnoredKind hd.kind = false)
+    (ht : Toks s = c ++ q0 :: rest) (hq : isIgnoredKind q0.kind = false) (hf : Parse.Exact.FObjP q0)
+    (h : (interfaceTypeExtension n).run s = .ok () s') : Toks s' = q0 :: rest ∧ (Doomed s' ↔ Doomed s) := by
+  obtain ⟨e, t, _⟩ := Parse.Exact.cmpT_interfaceTypeExtensionP n s s' () c x q0 rest w hlex h hx ⟨hspell, hhead⟩ ht hq hf trivial
+  exact ⟨t, e.doom⟩
+
+/-- `extend schema Directives[Const]? { RootOperationTypeDefinition+ }` (all named): anything may follow -/
+theorem schema_extension_with_roots_accept_complete (n : Nat) (s s' : PState) (c : List Tok) (x : List Ast.Tok) (q0 : Tok)
+    (rest : List Tok) (w : TW s) (hlex : LexQ (Toks s)) (hx : Parse.Exact.LSchemaExtP (s.recLimit - s.recCur) x)
+    (hspell : (sig c).map astOfV = x.map some) (hhead : ∀ hd tl, c = hd :: tl → isIgnoredKind hd.kind = false)
+    (ht : Toks s = c ++ q0 :: rest) (hq : isIgnoredKind q0.kind = false)
+    (h : (schemaExtension n).run s = .ok () s') : Toks s' = q0 :: rest ∧ (Doomed s' ↔ Doomed s) := by
+  obtain ⟨e, t, _⟩ := Parse.Exact.cmpT_schemaExtensionP n s s' () c x q0 rest w hlex h hx ⟨hspell, hhead⟩ ht hq trivial trivial
+  exact ⟨t, e.doom⟩
+
+/-- **document_accept_complete over `DocFollowX`.**  Every non-empty list of items within the EXACT budget (`Parse.Exact.itemFit rl`)
+    that satisfies the exact follow condition (`Parse.Exact.DocFollowX`: only a definition WITHOUT its braces body restricts the
+    next token — not `{`) parses with ZERO errors, in any spelling.  The other follow conditions of `document_accept_complete`
+    (`@ ( & = |`, the Name `implements`) are not hypotheses any more: they follow from "the next item is a definition within the
+    budget" by the first-token analysis `Parse.Exact.item_headA`.  (`type T { a: Int } { b }` is now inside the complete side.) -/
+theorem document_accept_complete_exact_follow (rl : Nat) (src : Parse.Str) (its : List DocItem) (ts : List Tok) (e : Tok)
+    (hclean : LexClean src) (hsig : sig (srcToks src) = ts ++ [e]) (he : e.kind = .eof)
+    (hx : ts.map astOfV = (docToks its).map some) (hne : its ≠ []) (hfit : ∀ i ∈ its, Parse.Exact.itemFit rl i)
+    (hfol : Parse.Exact.DocFollowX its) : (parse .document none rl src).errors = [] :=
+  Parse.Exact.parseDocument_complete_itemsX rl src its ts e hclean hsig he hx hne hfit hfol
+
+/-- **the sandwich with the exact follow condition on both sides**: `{itemFit rl, DocFollowX}` ⊆ accepted ⊆ `{itemFitX rl, DocFollowX}`.
+    The ONLY asymmetry left is the recorded finding: `itemFit` asks every root operation type of a schema definition / extension to
+    have its named type, `itemFitX` does not. -/
+theorem document_accept_sandwich_exact_follow (rl : Nat) (src : Parse.Str) :
+    ((parse .document none rl src).errors = [] →
+      LexClean src ∧ ∃ (ts : List Tok) (its : List DocItem) (e : Tok), sig (srcToks src) = ts ++ [e] ∧ e.kind = .eof ∧
+        ts.map astOfV = (docToks its).map some ∧ its ≠ [] ∧ (∀ i ∈ its, Parse.Exact.itemFitX rl i) ∧ Parse.Exact.DocFollowX its) ∧
+    ((LexClean src ∧ ∃ (ts : List Tok) (its : List DocItem) (e : Tok), sig (srcToks src) = ts ++ [e] ∧ e.kind = .eof ∧
+        ts.map astOfV = (docToks its).map some ∧ its ≠ [] ∧ (∀ i ∈ its, Parse.Exact.itemFit rl i) ∧ Parse.Exact.DocFollowX its) →
+      (parse .document none rl src).errors = []) :=
+  Parse.Exact.document_sandwich_followX rl src
+
+/-! ### growth 14: the exact guard of the schema productions — only the LAST root operation type may lack its named type -/
+
+/-- **what the parser really accepts** (kernel-evaluated): a root operation type may lack its named type exactly when no
+    Name follows it, i.e. only as the last root — in `query: mutation: M` the Name `mutation` is the type of `query` and
+    the second `:` is an error -/
+theorem schema_nameless_root_only_last :
+    (parse .document none 500 "schema { query: }".toList).errors = [] ∧
+    (parse .document none 500 "schema { query: Q mutation: }".toList).errors = [] ∧
+    (parse .document none 500 "extend schema @d { query: }".toList).errors = [] ∧
+    (parse .document none 500 "extend schema { query: Q subscription: }".toList).errors = [] ∧
+    (parse .document none 500 "schema { query: mutation }".toList).errors = [] ∧
+    (parse .document none 500 "schema { query: mutation: M }".toList).errors ≠ [] ∧
+    (parse .document none 500 "extend schema { query: subscription: S }".toList).errors ≠ [] ∧
+    (parse .document none 500 "schema { query }".toList).errors ≠ [] := Parse.Exact.schema_nameless_root_witnesses
+
+/-- `Parse.Exact.looseFitXX` lies between `looseFit` (every root named) and `looseFitX` (any root may be nameless) -/
+theorem loose_fit_xx_between (b : Nat) (l : LooseDef) :
+    (Parse.Exact.looseFit b l → Parse.Exact.looseFitXX b l) ∧ (Parse.Exact.looseFitXX b l → Parse.Exact.looseFitX b l) :=
+  ⟨Parse.Exact.looseFitXX_of_looseFit b l, Parse.Exact.looseFitX_of_XX b l⟩
+
+/-- **schema_definition_accept_complete_exact**: `schema_definition` accepts the tokens of every
+    `LooseDef.schema desc ds roots` within `Parse.Exact.looseFitXX` (directives `Const` and within the budget, at least one
+    root, every root but the last with its named type), whatever follows -/
+theorem schema_definition_accept_complete_exact (n : Nat) :
+    CmpT (fun _ => True) (schemaDefinition n) Parse.Exact.LSchemaX (fun _ => True) (fun _ => True) :=
+  Parse.Exact.cmpT_schemaDefinitionX n
+
+/-- **schema_extension_accept_complete_exact**: the same for `extend schema`; the next token must not continue it -/
+theorem schema_extension_accept_complete_exact (n : Nat) :
+    CmpT (fun _ => True) (schemaExtension n) Parse.Exact.LSchemaExtX (fun t => Fbody t.kind) (fun _ => True) :=
+  Parse.Exact.cmpT_schemaExtensionX n
+
+/-- **schema_definition_accept_sound_exact_xx**: the converse — an error-free run of `schema_definition` entered by the
+    dispatcher consumed `l.toks` for a schema definition within `Parse.Exact.looseFitXX` (after a nameless root the head
+    of the queue is not a Name, so the root loop stops: it was the last) -/
+theorem schema_definition_accept_sound_exact_xx (n : Nat) (s s' : PState) (w : TW s) (he : EofEnd s) (hq : LexQ (Toks s))
+    (hs : DStart "schema".toList (Toks s)) (hr : (schemaDefinition n).run s = .ok () s') (hnd : ¬ Doomed s') :
+    ∃ (cs : List Tok) (l : LooseDef), Toks s = cs ++ Toks s' ∧ NoEof cs ∧ EofEnd s' ∧ TokIs (sig cs) l.toks ∧
+      Parse.Exact.looseFitXX (Parse.Exact.bud s) l ∧ Settled s' ∧
+      (Parse.Exact.openBody l → ∀ t, s'.current = some t → t.kind ≠ .lCurly) :=
+  Parse.Exact.schemaDef_soundXX n s s' w he hq hs hr hnd
+
+/-- **schema_extension_accept_sound_exact_xx** -/
+theorem schema_extension_accept_sound_exact_xx (n : Nat) (s s' : PState) (w : TW s) (he : EofEnd s) (hq : LexQ (Toks s))
+    (hs : EStart "schema".toList (Toks s)) (hr : (schemaExtension n).run s = .ok () s') (hnd : ¬ Doomed s') :
+    ∃ (cs : List Tok) (l : LooseDef), Toks s = cs ++ Toks s' ∧ NoEof cs ∧ EofEnd s' ∧ TokIs (sig cs) l.toks ∧
+      Parse.Exact.looseFitXX (Parse.Exact.bud s) l ∧ Settled s' ∧
+      (Parse.Exact.openBody l → ∀ t, s'.current = some t → t.kind ≠ .lCurly) :=
+  Parse.Exact.schemaExt_soundXX n s s' w he hq hs hr hnd
 
 end Executable
 
